@@ -217,6 +217,7 @@ MODELS = [
     (r'PercentDecode::<.*>::decode_utf8$', m_decode_utf8),
     (r'PercentDecode::<.*>::decode_utf8_lossy$', m_decode_utf8_lossy),
     (r'String::from_utf8_lossy$', m_from_utf8_lossy),
+    (r'<impl str>::bytes$|String::bytes$', lambda ex, a, c: It('list', [b8(b) for b in sb_bytes(dv(a[0]))])),
     (r'Cow::<.*str>::into_owned$|<Cow<.*str> as ToString>::to_string$', lambda ex, a, c: dv(a[0])),
     (r'<Cow<.*> as Deref>::deref$|Cow::<.*>::into_owned$', lambda ex, a, c: dv(a[0])),
     (r'<impl str>::eq_ignore_ascii_case$', m_eq_ignore_ascii_case),
